@@ -399,6 +399,13 @@ def discharge(mod, pid, cfg, o, A, B, timeout_ms, seed, path, swept_goal=None):
                 if res.verdict == 'cex':
                     # a model of the swept goal is a model of the original (merges are equalities)
                     pass
+        elif o.meta.get('sqrt_level') == 0:
+            # CEGAR on square roots: level 0 keeps only s >= 0; a model found there is only a proposal, re-decided exactly
+            res = prove.valid(goal, AA, to, sqrt_exact=False)
+            orec['sqrt_level'] = 0
+            if res.verdict != 'proved':
+                res = prove.valid(goal, AA, to)
+                orec['sqrt_level'] = 1
         else:
             res = prove.valid(goal, AA, to, defined=not o.meta.get('no_definedness', False))
         orec['verdict'] = res.verdict
